@@ -506,9 +506,8 @@ class Expression:
     def __rpow__(self, other: object) -> ArithmeticExpressionT:
         assert is_constant(other)
 
-        if is_zero(other):  # base zero
-            return 0
-        elif is_zero(other-1):  # base one
+        # 0**x is not folded: it is 1 for x == 0.
+        if is_zero(other-1):  # base one
             return 1
         return Power(other, self)
 
